@@ -104,6 +104,9 @@ ROLES = {
     '_input_variables': ('elfi.methods.post_processing:RegressionAdjustment', 'method',
                          lambda f: f.params[1:] == ['model', 'sample', 'summary_names'] and
                          f.name != 'fit'),
+    '_run': ('elfi.executor:Executor', 'method',
+             lambda f: f.params[-1:] == ['G'] and _has(f, '.predecessors(') and
+             _has(f, "['param']")),
     '_fit1': ('elfi.methods.post_processing:RegressionAdjustment', 'method',
               lambda f: _has(f, 'self._regression_model(') and len(f.params) == 3),
     '_pairs': ('elfi.methods.post_processing:RegressionAdjustment', 'method',
